@@ -93,6 +93,15 @@ Theorem C09_silence_twisted_udp_refuted : ~ C09_silence_full_statement.
 Proof. exact c09_silence_refuted. Qed.
 Print Assumptions C09_silence_twisted_udp_refuted.
 
+(* Twisted UDP (alive since /repo b36db33) answers a delivered request exactly like the asyncio datagram server with
+   broadcast off — same stores, same response, same destination — unless request.execute returns a listen-only response *)
+Theorem C09_twisted_udp_like_asyncio_udp : forall S cfg (l : units S) (rq : dreq S),
+  cf_bcast cfg = false ->
+  (forall s, match snd (rq_exec rq s) with Ok r => rs_respond r = true | Raise _ => True end) ->
+  respond S code tw_udp cfg l rq = respond S code aio_udp cfg l rq.
+Proof. exact c09_tw_udp_like_aio_udp. Qed.
+Print Assumptions C09_twisted_udp_like_asyncio_udp.
+
 (* nothing delivered, nothing sent; never more responses than requests *)
 Theorem C09_no_spontaneous : forall S sk cfg (l : units S), serve S code sk cfg l [] = (l, [], None).
 Proof. exact c09_no_spontaneous. Qed.
